@@ -69,6 +69,10 @@ _c("C19", "exploration", "property-based testing (proptest) of process-level his
    "1-4 sessions of one real Client per process, server scheme per connection (parsable with distinct sizes / unparsable), default used before or not; packet sizes, announced md5, preamble padding and push counts judged against the scheme that must be in force. Plus the real server session's push decision in Lab-M.",
    "one child process per history; the reference server's plaintext view; packets delimited by the child's known call pattern")
 
+_c("C20", "exploration", "mutational property-based testing (proptest) of established real sessions and parsers with panic/allocation/quiescence/watchdog monitors and a sibling-stream oracle; coverage-guided fuzzing (libFuzzer via cargo-fuzz) of the same oracles in the thorough tier",
+   "Generated frame sequences (every command x role, settings/scheme payloads) mutated by bit flips, truncation, duplication, reordering and length corruption, delivered in fragments to a real session with a sibling stream; arbitrary bytes in arbitrary chunking into the destination/UoT parsers; mutated requests against the real HTTP listener with a neighbour. libFuzzer targets session_bytes_server/client, socks_addr_stream, uot_stream run bounded campaigns in thorough; their corpus is replayed in quick.",
+   "panics are counted by a process-wide hook; a stuck case is re-run in a child process before it is called a violation; fuzzed destinations never reach a socket (no dial handler in Lab-M; listener cases are confined to harness-owned targets)")
+
 NOT_YET = {}
 
 def main():
@@ -104,6 +108,8 @@ def main():
         "engines": [
             {"name": "vcheck", "path": "harness/", "serves_properties": [c["property_id"] for c in checks],
              "kind_free_text": "proptest-driven runner (harness/src/engine.rs): fixed-work tiers, 16 seeded workers, shrinking to JSON replay files, known-findings handling, evidence writer"},
+            {"name": "libfuzzer", "path": "harness/fuzz/", "serves_properties": ["C03", "C04", "C06", "C17", "C20"],
+             "kind_free_text": "cargo-fuzz 0.13 / libFuzzer targets whose bodies call the same oracle functions (harness/src/fuzz_entry.rs); bounded campaigns (-runs, -seed) from the committed corpus and from an empty one in the thorough tier, corpus replay in the quick tier"},
         ],
         "checks": checks,
         "not_applicable": na,
